@@ -140,6 +140,8 @@ def pmap(func, items, jobs: int, chunksize: int = 1, on_crash='raise', task_time
                     r.close()
                     p.join(5)
                     del running[i]
+                    if os.environ.get('FJV_TIMES') and now - t0 > float(os.environ['FJV_TIMES']):
+                        print(f'[slow task {now - t0:.1f}s] {it!r}'[:200], file=sys.stderr)
                     if kind == 'ok':
                         results[i] = val
                     elif kind == 'err':
